@@ -54,12 +54,12 @@ def decode_gate(prog, b, limit, what, ctx, key):
 def run(ctx):
     prog = ctx.prog
     # ---- 1. size gates
-    hm = prog.async_body(MGR + '::handle_dht_message')
+    hm = prog.inl(MGR + '::handle_dht_message', keep=r'::handle_dht_(request|response)$')
     ctx.touch(hm, len(hm.calls()))
     decode_gate(prog, hm, 64 * 1024, 'handle_dht_message', ctx, 'dht-message')
-    de = prog.body(REC + '::deserialize')
+    de = prog.inl(REC + '::deserialize')
     decode_gate(prog, de, 512, 'DhtRecord::deserialize', ctx, 'record-deserialize')
-    se = prog.body(REC + '::serialize')
+    se = prog.inl(REC + '::serialize')
     oks = False
     for bb, st in L.success_returns(se):
         for cd in F.dominating_conds(se, bb):
@@ -91,7 +91,7 @@ def run(ctx):
     ctx.floor('SIZE-GATE', 8)
 
     # ---- 2. timestamp window
-    pp = prog.body('network::parse_protocol_message')
+    pp = prog.inl('network::parse_protocol_message')
     ctx.touch(pp, len(pp.calls()))
     somes = [d for d in pp.defs().get(0, []) if d[0] == 's' and d[3]['r']['k'] == 'agg' and d[3]['r'].get('var') == 'Some']
     if not somes:
